@@ -537,4 +537,12 @@ with a concurrent directory↔link flipper. -/
 theorem open_flags_never_follow : "O_NOFOLLOW" ∈ Mutagen.SourceFacts.fsDirectoryOpenFlags := by
   decide
 
+/-- The same obligation for the open of the root itself (`filesystem.Open`,
+open_posix.go): `O_NOFOLLOW` is among the initial flags (it is cleared only
+when the caller explicitly allows a symbolic link at the root leaf, which
+`OpenDirectory(root, false)` — the call used by scans, transitions and the
+opener — does not). -/
+theorem root_open_flags_never_follow : "O_NOFOLLOW" ∈ Mutagen.SourceFacts.fsRootOpenFlags := by
+  decide
+
 end Mutagen.Properties.C17
